@@ -173,10 +173,15 @@ def write_obj(V, E, F, var=None):
         for n in VN:
             out.append("vn " + " ".join(fmt_float(c, fl) for c in n) + "\n")
         out.append(_blank(var, k)); k += 1
+    groups = var.get("groups")        # 'o' / 'g' / 's' records (object, group, smoothing group) spread between the element records
+    if groups:
+        out.append("o object0\n")
     for (a, b) in E:
         out.append(f"l {a + 1} {b + 1}\n" + _blank(var, k)); k += 1
     c = 1
-    for f in F:
+    for nf, f in enumerate(F):
+        if groups and nf % max(1, (len(F) + 2) // 3) == 0:
+            out.append(f"g part{nf}\n" + ("s off\n" if nf == 0 else f"s {nf}\n"))
         refs = []
         for v in f:
             if style == "v":
@@ -724,8 +729,9 @@ def read_stl(data):
     lines = [l for l in lines if l]
     if not lines or lines[0][0] != "solid":
         raise RefFormatError("stl: neither a consistent binary file (84 + 50 n bytes) nor an ascii 'solid'")
-    pos = 1
+    pos = 0
     tris, normals = [], []
+    solids = []
 
     def expect(words):
         nonlocal pos
@@ -734,23 +740,28 @@ def read_stl(data):
         pos += 1
         return lines[pos - 1]
 
-    while pos < len(lines) and lines[pos][0] == "facet":
-        l = expect(["facet", "normal"])
-        if len(l) != 5:
-            raise RefFormatError("stl ascii: facet normal needs 3 numbers")
-        normals.append([_f(x, "stl normal") for x in l[2:]])
-        expect(["outer", "loop"])
-        t = []
-        for _ in range(3):
-            l = expect(["vertex"])
-            if len(l) != 4:
-                raise RefFormatError("stl ascii: vertex needs 3 numbers")
-            t.append([_f(x, "stl vertex") for x in l[1:]])
-        expect(["endloop"])
-        expect(["endfacet"])
-        tris.append(t)
-    expect(["endsolid"])
-    return {"kind": "ascii", "tris": tris, "normals": normals}
+    # a file may hold several 'solid ... endsolid' blocks one after the other (one per part); the triangles are those of all blocks
+    while pos < len(lines):
+        expect(["solid"])
+        n0 = len(tris)
+        while pos < len(lines) and lines[pos][0] == "facet":
+            l = expect(["facet", "normal"])
+            if len(l) != 5:
+                raise RefFormatError("stl ascii: facet normal needs 3 numbers")
+            normals.append([_f(x, "stl normal") for x in l[2:]])
+            expect(["outer", "loop"])
+            t = []
+            for _ in range(3):
+                l = expect(["vertex"])
+                if len(l) != 4:
+                    raise RefFormatError("stl ascii: vertex needs 3 numbers")
+                t.append([_f(x, "stl vertex") for x in l[1:]])
+            expect(["endloop"])
+            expect(["endfacet"])
+            tris.append(t)
+        expect(["endsolid"])
+        solids.append(len(tris) - n0)
+    return {"kind": "ascii", "tris": tris, "normals": normals, "solids": solids}
 
 
 def write_stl_binary(tris, header=b"reference binary stl"):
@@ -764,13 +775,18 @@ def write_stl_ascii(tris, name="ref", var=None):
     var = var or {}
     fl = var.get("floats", "repr")
     ind = "  " if var.get("indent", True) else ""
-    out = [f"solid {name}\n"]
-    for t in tris:
-        out.append(f"{ind}facet normal 0 0 0\n{ind}{ind}outer loop\n")
-        for v in t:
-            out.append(f"{ind}{ind}{ind}vertex " + " ".join(fmt_float(c, fl) for c in v) + "\n")
-        out.append(f"{ind}{ind}endloop\n{ind}endfacet\n")
-    out.append(f"endsolid {name}\n")
+    k = max(1, int(var.get("solids", 1)))          # number of 'solid' blocks the triangles are spread over (contiguous runs)
+    cuts = [round(i * len(tris) / k) for i in range(k + 1)]
+    out = []
+    for b in range(k):
+        nm = name if k == 1 else f"{name}{b}"
+        out.append(f"solid {nm}\n")
+        for t in tris[cuts[b]:cuts[b + 1]]:
+            out.append(f"{ind}facet normal 0 0 0\n{ind}{ind}outer loop\n")
+            for v in t:
+                out.append(f"{ind}{ind}{ind}vertex " + " ".join(fmt_float(c, fl) for c in v) + "\n")
+            out.append(f"{ind}{ind}endloop\n{ind}endfacet\n")
+        out.append(f"endsolid {nm}\n")
     return "".join(out).encode("ascii")
 
 
@@ -814,6 +830,15 @@ def self_test():
     assert len(b) == 134 and read_stl(b)["tris"] == tri and read_stl(b)["kind"] == "binary"
     assert read_stl(b"solid a\nfacet normal 0 0 1\nouter loop\nvertex 0 0 0\nvertex 1 0 0\nvertex 0 1 0.5\nendloop\nendfacet\nendsolid a\n")["tris"] == tri
     assert read_stl(write_stl_binary([]))["tris"] == []
+    two = read_stl(b"solid a\nfacet normal 0 0 1\nouter loop\nvertex 0 0 0\nvertex 1 0 0\nvertex 0 1 0.5\nendloop\nendfacet\nendsolid a\n"
+                   b"solid b\nendsolid b\nsolid c\nfacet normal 0 0 1\nouter loop\nvertex 0 0 0\nvertex 1 0 0\nvertex 0 1 0.5\nendloop\nendfacet\nendsolid\n")
+    assert two["tris"] == tri + tri and two["solids"] == [1, 0, 1]
+    t5 = [[[float(i), 0.0, 0.0], [0.0, 1.0, 0.0], [0.0, 0.0, 1.0]] for i in range(5)]
+    for ks in (1, 2, 3, 7):
+        rr = read_stl(write_stl_ascii(t5, var={"solids": ks}))
+        assert rr["tris"] == t5 and len(rr["solids"]) == ks
+    og = read_obj(write_obj([[0.0, 0.0, 0.0], [1.0, 0.0, 0.0], [0.0, 1.0, 0.0], [1.0, 1.0, 0.0]], [[0, 1]], [[0, 1, 2], [1, 3, 2]], {"groups": True})[0])
+    assert og["F"] == [[0, 1, 2], [1, 3, 2]] and og["E"] == [[0, 1]]
     # writers against readers (all variations)
     V = [[0.1, -2.5, 1e-300], [1.0, 1 / 3, -0.0], [5e-324, 1e300, 3.0], [7.0, 8.0, 9.0], [1.5, 2.5, 3.5]]
     for seed in range(4):
